@@ -17,7 +17,7 @@ ASSUMPTIONS = ["scheduler runtime 0", "no preemption", "predecessor sets are rea
 
 
 def dag_worlds(tier):
-    return specs.worlds(max_jobs=8, conditionals=True, flags=specs.sim_flags(variance=True))
+    return specs.worlds(max_jobs=8, conditionals="side", flags=specs.sim_flags(variance=True))
 
 
 CHECKS = [
